@@ -119,6 +119,11 @@ def choose_bases(ck, classes, level, nbase, rng, workers):
     return chosen
 
 
+def base_ndim(b):
+    nd = b["o"].get("ndim", 2) if isinstance(b["o"], dict) else 2
+    return nd if isinstance(nd, int) and 1 <= nd <= 3 else 2
+
+
 def fault_model(ck, picks, level, workers):
     w = ck.work
     pp = os.path.join(w, "bases.ndjson")
@@ -300,7 +305,7 @@ def _run(ck, tier):
     fid = 0
     for e in faults:
         fid += 1
-        files.append(dict(e, id=fid, pc=e["c"], text=render(e["lines"], newline_at_end=(e["kind"] != "trunc"))))
+        files.append(dict(e, id=fid, pc=e["c"], ndim=base_ndim(bases[e["base"]]), text=render(e["lines"], newline_at_end=(e["kind"] != "trunc"))))
     nbytes = 0
     if tier == "thorough":
         # every byte prefix of every valid file
@@ -309,13 +314,13 @@ def _run(ck, tier):
             for k in range(0, len(text)):
                 fid += 1
                 nbytes += 1
-                files.append({"id": fid, "c": b["c"], "pc": b["c"], "kind": "truncbyte", "k": k, "t": "", "base": b["base"], "text": text[:k],
+                files.append({"id": fid, "c": b["c"], "pc": b["c"], "ndim": base_ndim(b), "kind": "truncbyte", "k": k, "t": "", "base": b["base"], "text": text[:k],
                               "verdict": "?", "unsafe": [], "rev": []})
     # the valid files themselves must load (sanity of the binding)
     valid = []
     for b in sorted(bases.values(), key=lambda b: b["base"]):
         fid += 1
-        valid.append({"id": fid, "c": b["c"], "pc": b["c"], "kind": "valid", "k": 0, "t": "", "base": b["base"], "text": render(b["lines"]),
+        valid.append({"id": fid, "c": b["c"], "pc": b["c"], "ndim": base_ndim(b), "kind": "valid", "k": 0, "t": "", "base": b["base"], "text": render(b["lines"]),
                       "verdict": "MaySucceed", "unsafe": [], "rev": []})
     outs, sani = run_loader(ck, files + valid, "main")
     for v in valid:
